@@ -245,3 +245,93 @@ Proof.
   now rewrite (startswith_no 91 hn H91), (startswith_no 91 hn' H91').
 Qed.
 End HostCaseUrl.
+
+(* ---------- from the text after the scheme to the whole URL ---------- *)
+Section WholeUrl.
+Variable enc : str -> option (list N).
+Variable lower_o : str -> str.
+Variable idna_o : str -> option str.
+Variable ipv6_o : str -> option str.
+Variable int_o : N -> str -> option Z.
+Variable unq_o : str -> str.
+Notation parse := (Url.parse enc lower_o idna_o ipv6_o int_o unq_o).
+Notation pnet := (parse_network enc idna_o ipv6_o int_o unq_o).
+
+(* the scheme text sch (before the first colon) names the network scheme sc with default port dport *)
+Definition scheme_text (sch sc : str) (dport : N) : Prop :=
+  sch <> [] /\ memb 58 sch = false /\ sc = py_lower lower_o sch /\ memb 46 sc = false /\ str_eqb sc s_localhost = false /\
+  default_port sc = Some dport.
+
+(* a URL text that strip leaves alone and that has no control character *)
+Definition plain_text (s : str) : Prop := strip s = s /\ existsb (fun c => c <? 32) s = false.
+
+Lemma parse_is_parse_network sch sc dport rem :
+  scheme_text sch sc dport -> plain_text (sch ++ 58 :: rem) ->
+  parse (sch ++ 58 :: rem) = pnet (sch ++ 58 :: rem) sc dport rem.
+Proof.
+  intros [Hne [H58 [Hsc [H46 [Hloc Hd]]]]] [Hs Hc]. unfold Url.parse. rewrite Hs, Hc.
+  unfold split_scheme. rewrite (partition_first 58 sch rem H58).
+  assert (Hn : is_nil sch = false) by (destruct sch; [contradiction | reflexivity]). rewrite Hn.
+  cbn [negb]. rewrite <- Hsc, H46, Hloc. cbn [orb]. now rewrite Hd.
+Qed.
+
+(* any relation that holds between the parses of two texts after the scheme, whatever raw text is recorded, holds between
+   the parses of the two whole URLs *)
+Lemma parse_lift (Rel : result urlinfo -> result urlinfo -> Prop) sch sc dport rem rem' :
+  scheme_text sch sc dport -> plain_text (sch ++ 58 :: rem) -> plain_text (sch ++ 58 :: rem') ->
+  (forall url url', Rel (pnet url sc dport rem) (pnet url' sc dport rem')) ->
+  Rel (parse (sch ++ 58 :: rem)) (parse (sch ++ 58 :: rem')).
+Proof.
+  intros Hs P1 P2 H. rewrite (parse_is_parse_network sch sc dport rem Hs P1), (parse_is_parse_network sch sc dport rem' Hs P2).
+  apply H.
+Qed.
+
+Definition same_url (r r' : result urlinfo) : Prop :=
+  match r, r' with
+  | Ok i, Ok i' => url_of enc i = url_of enc i' /\ u_scheme i = u_scheme i' /\ u_hostname i = u_hostname i' /\
+                   u_port i = u_port i' /\ u_path i = u_path i' /\ u_query i = u_query i' /\ u_fragment i = u_fragment i' /\
+                   u_username i = u_username i' /\ u_password i = u_password i'
+  | Err k, Err k' => k = k'
+  | _, _ => False
+  end.
+
+(* "sch://A/a/<mid>/b T" and "sch://A/a/b T" *)
+Theorem parse_url_insert_segments sch sc dport A (c : N) (a b : str) (mid : list str) T :
+  scheme_text sch sc dport ->
+  memb 47 A = false -> memb 63 A = false -> memb 35 A = false ->
+  c <> 47 -> memb 63 (c :: a) = false -> memb 35 (c :: a) = false -> memb 63 b = false -> memb 35 b = false ->
+  memb 63 (join [47] mid) = false -> memb 35 (join [47] mid) = false ->
+  dropped mid -> mid <> [] -> Forall (fun p => memb 47 p = false) mid -> tail_ok T ->
+  let rem := [47; 47] ++ A ++ 47 :: ((c :: a) ++ 47 :: join [47] mid ++ 47 :: b) ++ T in
+  let rem' := [47; 47] ++ A ++ 47 :: ((c :: a) ++ 47 :: b) ++ T in
+  plain_text (sch ++ 58 :: rem) -> plain_text (sch ++ 58 :: rem') ->
+  same_url (parse (sch ++ 58 :: rem)) (parse (sch ++ 58 :: rem')).
+Proof.
+  intros Hs A47 A63 A35 Hc a63 a35 b63 b35 m63 m35 Hdr Hne Hm HT rem rem' P1 P2.
+  apply (parse_lift same_url sch sc dport rem rem' Hs P1 P2). intros url url'.
+  destruct Hs as [_ [_ [_ [_ [_ Hd]]]]].
+  exact (parse_network_insert_segments enc idna_o ipv6_o int_o unq_o url url' sc dport A c a b mid T
+           Hd A47 A63 A35 Hc a63 a35 b63 b35 m63 m35 Hdr Hne Hm HT).
+Qed.
+
+(* "sch://U hn pp R" and "sch://U hn' pp R" *)
+Theorem parse_url_host_case sch sc dport (u : option str) hn hn' pp R :
+  scheme_text sch sc dport ->
+  (forall x, u = Some x -> memb 64 x = false /\ memb 47 x = false /\ memb 63 x = false /\ memb 35 x = false) ->
+  name_text hn -> name_text hn' -> lower_ascii hn = lower_ascii hn' -> port_text pp ->
+  memb 47 hn = false -> memb 63 hn = false -> memb 35 hn = false -> memb 64 hn = false ->
+  memb 47 hn' = false -> memb 63 hn' = false -> memb 35 hn' = false -> memb 64 hn' = false ->
+  rest_ok R ->
+  let U := match u with Some x => x ++ [64] | None => [] end in
+  let rem := [47; 47] ++ (U ++ hn ++ pp) ++ R in
+  let rem' := [47; 47] ++ (U ++ hn' ++ pp) ++ R in
+  plain_text (sch ++ 58 :: rem) -> plain_text (sch ++ 58 :: rem') ->
+  same_url (parse (sch ++ 58 :: rem)) (parse (sch ++ 58 :: rem')).
+Proof.
+  intros Hs Hu N1 N2 Hl Hp h47 h63 h35 h64 h47' h63' h35' h64' HR U rem rem' P1 P2.
+  apply (parse_lift same_url sch sc dport rem rem' Hs P1 P2). intros url url'.
+  destruct Hs as [_ [_ [_ [_ [_ Hd]]]]].
+  exact (parse_network_host_case enc idna_o ipv6_o int_o unq_o url url' sc dport u hn hn' pp R
+           Hd Hu N1 N2 Hl Hp h47 h63 h35 h64 h47' h63' h35' h64' HR).
+Qed.
+End WholeUrl.
